@@ -750,6 +750,9 @@ func rowKinds() []Metric {
 		mk([]Tag{{"é", "ü"}, {"zone", "z"}, {"host", "a"}}),  // K5
 		mk([]Tag{{"host", "a"}, {"host", "c"}}),              // K6 duplicate key
 		mk([]Tag{{"host", "d"}}, sf("g_last", tLast, nan())), // K7 invalid: NaN in the second field
+		// tag sets whose concatenation is longer than 256 bytes (two of them: the second one is hashed after the first)
+		mk([]Tag{{"host", strings.Repeat("x", 150)}, {"zone", strings.Repeat("y", 150)}}), // K8
+		mk([]Tag{{"host", strings.Repeat("w", 300)}}),                                     // K9
 	}
 }
 
